@@ -533,11 +533,16 @@ theorem zip_snd_sublist {α β : Type} : ∀ (bs : List α) (cs : List β), ((Li
   | b :: bs, c :: cs => by simpa using zip_snd_sublist bs cs
 
 /-- the pairing of the kernel-evaluated example (branch `i` with child `i`) is a matching -/
-example : PairOK1 (σ := Nat) (fun s bs cs => (s, List.zip bs cs)) :=
+theorem zip_pairOK1 : PairOK1 (σ := Nat) (fun s bs cs => (s, List.zip bs cs)) :=
   ⟨⟨fun _ _ _ _ => rfl, fun _ _ _ _ hpr => (List.of_mem_zip hpr).2⟩,
     fun _ bs cs hcs => hcs.sublist (zip_snd_sublist bs cs)⟩
-example : C06.IsTree (.node 0 [.node 1 [.node 2 [], .node 3 []]]) [-1, 0, 1, 1] := by
+theorem exY_isTree : C06.IsTree (.node 0 [.node 1 [.node 2 [], .node 3 []]]) [-1, 0, 1, 1] := by
   refine ⟨⟨?_, by decide⟩, by decide, rfl, rfl⟩
   simp [Agrees, AgreesL, tableKids, Rose.id, Sub.rangeI, List.range, List.range.loop]
+
+/-- the hypotheses of `generated_resample_tree_wf` are jointly satisfiable: the Y-shaped tree, the identity "resampler" (counting its calls in the
+shared state), the zip pairing — the instance of the theorem -/
+example := generated_resample_tree_wf (σ := Nat) (fun s br => (s + 1, br)) (fun s bs cs => (s, List.zip bs cs)) (fun _ _ => true) (fun _ _ => true)
+  _ _ exY_isTree zip_pairOK1 0
 
 end C16Tree
